@@ -801,9 +801,9 @@ var contents = map[string][]string{
 	"js":   {"var a = 1 ;\nfunction f ( x ) { return x + 1 }\n", "let longName = 2 ; console.log( longName )", "", "var = ;", "if (a) { b() } else { c() }"},
 	"mjs":  {"export default function ( ) { return 1 }\n", "import a from './a.js' ; a ( )"},
 	"css":  {"a { color : #ff0000 ; margin : 0px }\n", "@media screen { b { top : 0.50em } }", "", "a{b:c}"},
-	"html": {"<html><head><title> t </title></head><body><p> a </p><script> var x = 1 ; </script></body></html>", "<p>x</p>\n", "", "<div><script>var = ;</script></div>"},
+	"html": {"<html><head><title> t </title></head><body><p> a </p><script> var x = 1 ; </script></body></html>", "<p>x</p>\n", "", "<div><script>var = ;</script></div>", "<P CLASS=\"x\">  a   b  </P>\n\n<UL> <LI> one </LI> </UL>\n<script>var = ;</script>\n"},
 	"htm":  {"<p> a  b </p>"},
-	"json": {"{ \"a\" : [ 1.0 , 2 ] }\n", "[ ]", "{\"a\":}", ""},
+	"json": {"{ \"a\" : [ 1.0 , 2 ] }\n", "[ ]", "{\"a\":}", "", "{ \"name\" : \"demo\" ,  \"list\" : [ 1 , 2 , 3 ] ,  \"broken\" : }\n"},
 	"svg":  {"<svg xmlns=\"http://www.w3.org/2000/svg\"><path d=\"M 0 0 L 10 10\"/></svg>", "<svg><!-- c --><g></g></svg>"},
 	"xml":  {"<?xml version=\"1.0\"?>\n<root>\n  <a> x </a>\n</root>\n", "<a/>"},
 	"rss":  {"<rss><channel>  <title>t</title> </channel></rss>"},
@@ -1063,10 +1063,106 @@ func TestCampaignScenarios(t *testing.T) {
 	})
 }
 
+// the same file under two names: through a symbolic link to its directory, and through a hard link. The command must see
+// that source and destination are one file (or treat the hard link's other name as an input that is only read).
+type Alias struct {
+	Kind    string `json:"kind"` // symlinked-dir | hard-link
+	Ext     string `json:"ext"`
+	Content string `json:"content"`
+	Quiet   bool   `json:"quiet"`
+}
+
+func checkAlias(a Alias) (nontrivial bool, err error) {
+	cli := os.Getenv("VERIF_CLI")
+	parent, e := os.MkdirTemp("", "c19a-")
+	if e != nil {
+		return false, fmt.Errorf("HARNESS: %v", e)
+	}
+	defer os.RemoveAll(parent)
+	work := filepath.Join(parent, "work")
+	os.MkdirAll(filepath.Join(work, "site"), 0o755)
+	src := filepath.Join("site", "f."+a.Ext)
+	os.WriteFile(filepath.Join(work, src), []byte(a.Content), 0o644)
+	dst := ""
+	if a.Kind == "symlinked-dir" {
+		os.Symlink("site", filepath.Join(work, "current"))
+		dst = filepath.Join("current", "f."+a.Ext)
+	} else {
+		dst = "other." + a.Ext
+		os.Link(filepath.Join(work, src), filepath.Join(work, dst))
+	}
+	args := []string{"-o", dst, src}
+	if a.Quiet {
+		args = append([]string{"-q"}, args...)
+	}
+	cmd := exec.Command(cli, args...)
+	cmd.Dir = work
+	cmd.Env = append(os.Environ(), "HOME="+parent)
+	out, _ := cmd.CombinedOutput()
+	want, lerr := libMinify(extMap[a.Ext], []byte(a.Content), mk.Options{})
+	if lerr != nil {
+		want = []byte(a.Content)
+	}
+	gotSrc, e1 := os.ReadFile(filepath.Join(work, src))
+	gotDst, e2 := os.ReadFile(filepath.Join(work, dst))
+	_, bak1 := os.Lstat(filepath.Join(work, src+".bak"))
+	_, bak2 := os.Lstat(filepath.Join(work, dst+".bak"))
+	nontrivial = string(want) != a.Content
+	fail := func(format string, x ...interface{}) error {
+		return fmt.Errorf("minify %s (%s): "+format+"\n--- output of the command:\n%s", append([]interface{}{strings.Join(args, " "), a.Kind}, append(x, clip(string(out)))...)...)
+	}
+	switch {
+	case e1 != nil || e2 != nil:
+		return nontrivial, fail("source or destination is gone (%v, %v)", e1, e2)
+	case string(gotDst) != string(want):
+		return nontrivial, fail("the destination holds %q, expected %q", clip(string(gotDst)), clip(string(want)))
+	case a.Kind == "symlinked-dir" && string(gotSrc) != string(want):
+		return nontrivial, fail("source and destination are one file, it holds %q, expected %q", clip(string(gotSrc)), clip(string(want)))
+	case a.Kind == "hard-link" && string(gotSrc) != a.Content && string(gotSrc) != string(want):
+		return nontrivial, fail("the source holds %q: neither the original nor the output", clip(string(gotSrc)))
+	case bak1 == nil || bak2 == nil:
+		return nontrivial, fail("a .bak file is left behind")
+	}
+	return nontrivial, nil
+}
+
+func TestCampaignAliases(t *testing.T) {
+	if hx.E.Shard != 0 {
+		return
+	}
+	for _, kind := range []string{"symlinked-dir", "hard-link"} {
+		for _, e := range []string{"js", "css", "html", "json", "svg", "xml"} {
+			for _, content := range contents[e] {
+				for _, quiet := range []bool{true, false} {
+					a := Alias{kind, e, content, quiet}
+					nt, err := checkAlias(a)
+					hx.C.CaseEnum(nt && err == nil)
+					hx.C.Class("alias:" + kind)
+					if err != nil && strings.HasPrefix(err.Error(), "HARNESS:") {
+						t.Fatalf("%v", err)
+					}
+					if err != nil {
+						hx.Fail(t, "aliases", a, "%v", err)
+						return
+					}
+				}
+			}
+		}
+	}
+}
+
 func matchKnown(sc Scenario, err error) string { return "" }
 
 func TestReplay(t *testing.T) {
 	hx.ReplayTest(t, func(f hx.Failure) error {
+		if f.Check == "aliases" {
+			var a Alias
+			if err := json.Unmarshal(f.Case, &a); err != nil {
+				return err
+			}
+			_, err := checkAlias(a)
+			return err
+		}
 		var sc Scenario
 		if err := json.Unmarshal(f.Case, &sc); err != nil {
 			return err
